@@ -557,3 +557,123 @@ def k_whole_semicolon(pi: int, variant: int) -> bool:
     return semicolon_ok(p, v)
 '''
   return 'from parser_py import parse\n' + src, names
+
+
+# ---- redundant parentheses around expressions / propositions of catalogue programs
+PAREN_STYLES = ['(%s)', '( %s )', '((%s))', '( (%s) )', '(\n  (%s)\n)']
+
+
+def paren_variants(nprog=10, per_prog=25):
+  """[(original text, [variant texts])] built on the catalogue AST: the k-th expression (or atom /
+  comparison) of a program is wrapped in redundant parentheses in five layouts"""
+  from .. import gen, lang
+  from ..lang import (Var, Num, Bin, UMinus, Builtin, ListE, RecE, Field, Elem, Size, If, Call, Paren, Atom, Cmp, Conj,
+                      Node, mapn, Rule, Program)
+  EXPR = (Var, Num, Bin, UMinus, Builtin, ListE, RecE, Field, Elem, Size, If, Call)
+  out = []
+  seeds = [('core', s) for s in range(nprog - 4)] + [('agg', s) for s in (4, 6, 7, 17)]
+  for fam, s in seeds:
+    case = getattr(gen, fam + '_case')(s)
+    prog = case.prog
+    base = prog.text()
+    variants = []
+    # count wrappable nodes
+    concise_lhs = set()
+
+    def lhs(n):
+      # the target of `v Op= (e :- body)` is a variable name, not an expression position
+      if isinstance(n, Cmp) and isinstance(n.b, lang.AggE) and n.b.style == 'concise':
+        concise_lhs.add(id(n.a))
+      if isinstance(n, Node):
+        for c in lang.children(n):
+          lhs(c)
+    for r in prog.rules:
+      if r.body is not None:
+        lhs(r.body)
+
+    def count(n, acc):
+      if (isinstance(n, EXPR) or isinstance(n, (Atom, Cmp))) and id(n) not in concise_lhs:
+        acc.append(n)
+      if isinstance(n, Node):
+        for c in lang.children(n):
+          count(c, acc)
+    nodes = []
+    for r in prog.rules:
+      for part in list(r.args) + [v for _, v in r.nargs if v is not None] + [r.value, r.body]:
+        if part is not None and isinstance(part, Node):
+          count(part, nodes)
+    step = max(1, len(nodes) // per_prog)
+    for k in range(0, len(nodes), step):
+      target = nodes[k]
+      style = PAREN_STYLES[(k // step) % len(PAREN_STYLES)]
+
+      def fn(n):
+        if n is target:
+          if isinstance(n, (Atom, Cmp)):
+            w = Paren(Var('__PROP__'))
+            w.style = style
+            w.prop = n
+            return w
+          w = Paren(n)
+          w.style = style
+          return w
+        if isinstance(n, Node):
+          return mapn(n, fn)
+        return n
+
+      def ap(v):
+        return None if v is None else (fn(v) if isinstance(v, Node) else v)
+      rules = []
+      for r in prog.rules:
+        rr = Rule(r.pred, [ap(a) for a in r.args], [(kk, ap(v)) for kk, v in r.nargs], ap(r.value), r.distinct,
+                  ap(r.body), r.value_style)
+        if getattr(r, 'denotation', None):
+          rr.denotation = r.denotation
+        rules.append(rr)
+      try:
+        text = Program(rules, prog.annotations, prog.ext, prog.engine_line).text()
+      except TypeError:
+        # a wrapped proposition: render it by hand in place of the marker
+        continue
+      if '__PROP__' in text:
+        continue
+      if text != base:
+        variants.append(text)
+    out.append((base, variants))
+  return out
+
+
+PARENS = r'''
+PAREN_CASES = %(cases)r
+PAREN_BASE = [_plain(_parse(b)) for b, vs in PAREN_CASES]
+
+
+def parens_ok(pi, vi):
+  base, variants = PAREN_CASES[pi]
+  rules = _parse(variants[vi])
+  return _plain(rules) == PAREN_BASE[pi] and _spans_ok(rules)
+'''
+
+
+def parens_source(cases):
+  from .. import variants
+  src, _names = whole_source()
+  src += PARENS % dict(cases=cases)
+  names = []
+  for i, (b, vs) in enumerate(cases):
+    if not vs:
+      continue
+    fn = 'k_whole_parens_%d' % i
+    names.append(fn)
+    src += '''
+
+def %(fn)s(v: int) -> bool:
+  """
+  pre: 0 <= v < %(n)d
+  post: _
+  """
+  j = concretise(v, %(n)d)
+  with untraced():
+    return parens_ok(%(i)d, j)
+''' % dict(fn=fn, n=len(vs), i=i)
+  return src, names
